@@ -269,3 +269,55 @@ func (tk *Ticker) Reset(d time.Duration) {
 	tk.stopped, tk.d = false, d
 	tk.arm()
 }
+
+// ContextAfterFunc replaces context.AfterFunc: the standard library would run f
+// in a goroutine of its own that the scheduler does not own. Here a thread
+// waits for ctx to end (or for stop) and then runs f.
+func ContextAfterFunc(ctx context.Context, f func()) (stop func() bool) {
+	s := S
+	if s == nil || s.aborting {
+		return context.AfterFunc(ctx, f)
+	}
+	stopCh := make(chan struct{})
+	s.keep = append(s.keep, stopCh)
+	started, stopped := false, false
+	GoNamed("context.AfterFunc", func() {
+		if Select(false, R(ctx.Done()), R((<-chan struct{})(stopCh))) == 0 && !stopped {
+			started = true
+			f()
+		}
+	})
+	return func() bool {
+		PointOp("context.AfterFunc.stop", 0)
+		if started || stopped {
+			return false
+		}
+		stopped = true
+		Close(stopCh)
+		return true
+	}
+}
+
+// WithTimeoutCause / WithDeadlineCause replace the context functions of the same name (the cause
+// is recorded; the deadline is a virtual timer).
+func WithTimeoutCause(parent context.Context, d time.Duration, cause error) (context.Context, context.CancelFunc) {
+	s := S
+	if s == nil {
+		return context.WithTimeoutCause(parent, d, cause)
+	}
+	inner, cancelCause := context.WithCancelCause(parent)
+	ctx, cancel := WithTimeout(inner, d)
+	if tc, ok := ctx.(*timerCtx); ok && tc.t != nil {
+		fire := tc.t.cancel
+		tc.t.cancel = func() { cancelCause(cause); fire() }
+	}
+	return ctx, func() { cancel(); cancelCause(context.Canceled) }
+}
+
+func WithDeadlineCause(parent context.Context, at time.Time, cause error) (context.Context, context.CancelFunc) {
+	s := S
+	if s == nil {
+		return context.WithDeadlineCause(parent, at, cause)
+	}
+	return WithTimeoutCause(parent, at.Sub(vepoch)-s.now, cause)
+}
